@@ -1222,13 +1222,48 @@ def rule_excl(facts):
     return r
 
 
+def rule_finflag(facts):
+    """`finalized[i]` means: operator i has been finalized (or reported Exhausted itself). The Exhausted arm clears the instruction stack,
+    so a flag that is raised when a finalize is merely *scheduled* can outlive the scheduled instruction: the operator is then never
+    finalized, its barrier never released. A flag raised for an operator other than the one whose instruction is being handled (index
+    taken from a loop) must therefore sit behind the result of that operator's `handle_finalize`."""
+    r = RuleResult("C04-FINFLAG", "ExecutionStack raises `finalized[i]` for another operator only behind the result of that operator's finalize call", floor=3)
+    rec = facts.fn("glaredb_core::execution::execution_stack::ExecutionStack::pop_next")
+    if rec is None:
+        r.missing_anchor("ExecutionStack::pop_next")
+        return r
+    fn = Fn(rec)
+    r.functions.add(fn.id)
+    fin_calls = [c.bb for c in fn.calls() if c.name.endswith("::handle_finalize")]
+    if not fin_calls:
+        r.missing_anchor("handle_finalize call in ExecutionStack::pop_next")
+        return r
+    for c in fn.calls():
+        if not (c.decl.startswith("std::ops::IndexMut") or c.name.endswith("::index_mut")) or len(c.args) < 2:
+            continue
+        bo = fn.origin(c.args[0], at=c.bb)
+        flds = [p_[1] for p_ in (bo[2] if len(bo) > 2 and isinstance(bo[2], list) else []) if isinstance(p_, list) and p_[0] == "f"]
+        if "finalized" not in flds:
+            continue
+        io = fn.origin(c.args[1], at=c.bb, through_calls=("::unwrap", "::branch"))
+        from_loop = io[0] == "call" and ("Iterator" in io[1].name or io[1].name.endswith("::next"))
+        r.call_sites += 1
+        ok = (not from_loop) or any(fn.dominates(b, c.bb) for b in fin_calls)
+        r.inst({"fn": fn.id, "line": c.line, "index_from_loop": from_loop, "behind_finalize_result": any(fn.dominates(b, c.bb) for b in fin_calls)}, ok)
+        if not ok:
+            r.violate(fn.id, "flag-raised-at-scheduling", f"`finalized[i]` is raised at line {c.line} for an operator taken from a loop, before that operator's finalize has run: "
+                      "if the scheduled finalize instruction is discarded (a later operator is exhausted by the same batch) the operator is never finalized and "
+                      "the partitions waiting on its barrier hang", rec["file"], c.line)
+    return r
+
+
 def run(ctx):
     facts = ctx["facts"]
     mons, model = collect_monitor_model(facts)
     park, P = rule_park(facts, mons, model)
     PARK_SITES = [(i["fn"], i["ty"], i["slot"].split(".", 1)[1]) for i in park.instances]
     return [rule_pend(facts), park, rule_notify(facts, mons, model, P), rule_extcond(facts, mons, model), rule_addblocks(facts),
-            rule_stack(facts), rule_sched(facts), rule_err(facts, mons), rule_lock(facts, PARK_SITES), rule_barrier(facts), rule_excl(facts)]
+            rule_stack(facts), rule_sched(facts), rule_err(facts, mons), rule_lock(facts, PARK_SITES), rule_barrier(facts), rule_excl(facts), rule_finflag(facts)]
 
 
 CLAIM = {
